@@ -27,6 +27,21 @@ const ASSUMPTIONS: &[&str] = &[
 fn main() {
     let args = vcore::parse_args();
     vcore::install_panic_hook();
+    {
+        let prev = std::panic::take_hook();
+        std::panic::set_hook(Box::new(move |info| {
+            if let Some(l) = info.location() {
+                if let Ok(mut g) = LAST_PANIC_LOCATION.lock() {
+                    // keep the FIRST location inside the pool's code if there is one (later panics
+                    // are PoisonedLock unwraps of the harness)
+                    if !(g.contains("resource_pool.rs")) {
+                        *g = format!("{}:{}", l.file(), l.line());
+                    }
+                }
+            }
+            prev(info);
+        }));
+    }
     if args.prop != "C18" {
         eprintln!("mon-pool: unknown property {}", args.prop);
         std::process::exit(2);
@@ -47,21 +62,21 @@ fn main() {
         phase_s.insert(name, (t.elapsed().as_secs_f64() * 10.0).round() / 10.0);
         t = std::time::Instant::now();
     };
-    phase_l1_exhaustive(&mut mon, threads);
+    guarded(&mut mon, "L1x", |m| phase_l1_exhaustive(m, threads));
     lap("L1x", &mut phase_s);
-    phase_l1_random(&mut mon, threads);
+    guarded(&mut mon, "L1r", |m| phase_l1_random(m, threads));
     lap("L1r", &mut phase_s);
-    phase_wake(&mut mon);
+    guarded(&mut mon, "W", phase_wake);
     lap("W", &mut phase_s);
 
     // L2a: no hook installed at all
     let l2_par = std::env::var("VERIF_L2_PAR").ok().and_then(|s| s.parse().ok()).unwrap_or((threads * 3 / 8).max(2));
     mon.extra.insert("l2_parallel_runs".into(), json!(l2_par));
-    phase_l2(&mut mon, "L2a", false, l2_par);
+    guarded(&mut mon, "L2a", |m| phase_l2(m, "L2a", false, l2_par));
     lap("L2a", &mut phase_s);
     if hooks_compiled {
         set_process_hook(true);
-        phase_l2(&mut mon, "L2b", true, l2_par);
+        guarded(&mut mon, "L2b", |m| phase_l2(m, "L2b", true, l2_par));
         set_process_hook(false);
         lap("L2b", &mut phase_s);
     } else {
@@ -137,6 +152,22 @@ fn log_lines(log: &[Ev], max: usize) -> Vec<String> {
     v
 }
 
+/// an error string of a run: a panic raised inside the pool's own source file (directly, or seen
+/// by the others as a poisoned lock) is a violation; anything else stays a harness/pool error
+fn report_run_error(m: &mut Monitor, place: &str, e: &str) {
+    let last = LAST_PANIC_LOCATION.lock().map(|l| l.clone()).unwrap_or_default();
+    let pool_panic = last.contains("resource_pool.rs") && (e.contains("panicked") || e.contains("Poisoned") || e.contains("poisoned"));
+    if pool_panic {
+        m.violation(
+            "C18 a pool call panics (the pool's lock is poisoned: no caller is served again)",
+            &format!("{place}: {e} (first panic inside the pool's code at {last})"),
+            json!({"place": place, "location": last, "error": e}),
+        );
+    } else {
+        m.inconclusive(&format!("harness/pool error in {place}: {e}"));
+    }
+}
+
 /// run one L1 history, feed the monitor; returns the signatures that fired
 fn eval_l1(mon: &mut Monitor, prefix: &str, case: &L1Case, shrink: bool, may_sample: bool) -> Vec<&'static str> {
     let out = run_l1(case);
@@ -145,7 +176,7 @@ fn eval_l1(mon: &mut Monitor, prefix: &str, case: &L1Case, shrink: bool, may_sam
     mon.count_n("ops.pool_calls", out.ops);
     merge_counters(mon, prefix, &rep);
     for e in &out.errors {
-        mon.inconclusive(&format!("harness/pool error in an L1 history: {e}"));
+        report_run_error(mon, "an L1 history", e);
     }
     let stale = rep.get("stale_give_back_attempts.item") + rep.get("stale_give_back_attempts.drop") + rep.get("stale_give_back_attempts.raw");
     if stale > 0 {
@@ -218,6 +249,26 @@ fn nth_sequence(len: usize, mut idx: u64) -> Vec<Op> {
     }
     ops
 }
+
+/// run one phase; a panic that escapes it is judged by where it was raised
+fn guarded(mon: &mut Monitor, name: &str, f: impl FnOnce(&mut Monitor)) {
+    let r = std::panic::catch_unwind(std::panic::AssertUnwindSafe(|| f(&mut *mon)));
+    if let Err(e) = r {
+        let msg = if let Some(s) = e.downcast_ref::<&str>() { s.to_string() } else if let Some(s) = e.downcast_ref::<String>() { s.clone() } else { "?".to_string() };
+        let last = LAST_PANIC_LOCATION.lock().map(|l| l.clone()).unwrap_or_default();
+        if last.contains("mithril-resource-pool") || last.contains("resource_pool.rs") {
+            mon.violation(
+                "C18 a pool call panics (the pool's lock is poisoned: no caller is served again)",
+                &format!("phase {name}: panic raised at {last}: {msg}"),
+                json!({"phase": name, "location": last, "message": msg}),
+            );
+        } else {
+            mon.inconclusive(&format!("phase {name} panicked outside the pool's code at {last}: {msg}"));
+        }
+    }
+}
+
+static LAST_PANIC_LOCATION: std::sync::Mutex<String> = std::sync::Mutex::new(String::new());
 
 fn phase_l1_exhaustive(mon: &mut Monitor, threads: usize) {
     let max_len: usize = std::env::var("VERIF_L1X_LEN").ok().and_then(|s| s.parse().ok()).unwrap_or(mon.tier.pick(6, 7));
@@ -460,7 +511,7 @@ fn phase_l2(mon: &mut Monitor, phase: &'static str, with_delay: bool, par: usize
                 m.count_n(&format!("{phase}.hook_hits.UNKNOWN_POINT"), out.hook.unknown_points);
             }
             for e in &out.errors {
-                m.inconclusive(&format!("harness/pool error in an {phase} run (stream {}): {e}", id.stream));
+                report_run_error(m, &format!("an {phase} run (stream {})", id.stream), e);
             }
             let mut contended = 0u64;
             for w in &rep.windows {
